@@ -2,7 +2,7 @@
 
 
 def parse(text):
-    d = {"core": [], "glsl": [], "opencl": [], "lookup": {}, "get": {}, "lookup_glsl": {}, "lookup_opencl": {},
+    d = {"core": [], "glsl": [], "opencl": [], "lookup": {}, "get": {}, "get_glsl": {}, "get_opencl": {}, "lookup_glsl": {}, "lookup_opencl": {},
          "lookup_far": [], "reflect": [], "generator_from": [], "version_bad": [], "version_of": [],
          "probes": [], "header_new": None, "version_checked": None}
 
@@ -19,6 +19,8 @@ def parse(text):
             d[k][int(p[1])] = (p[2], int(p[3]))
         elif k == "get":
             d["get"][int(p[1])] = (p[2], p[3])
+        elif k in ("get_glsl", "get_opencl"):
+            d[k][int(p[1])] = (p[2], p[3])
         elif k == "lookup_far":
             d["lookup_far"].append((int(p[1]), p[2], p[3]))
         elif k == "reflect":
